@@ -937,7 +937,7 @@ fn expected_big(which: &str, n: usize) -> u64 {
 }
 
 /// 8 KiB element: 48 of them are 384 KiB — far larger than a 256 KiB stack although N is small
-#[derive(Clone)]
+#[derive(Clone, Copy)]
 struct Huge([u8; 8192]);
 impl Default for Huge {
     fn default() -> Huge {
